@@ -1,5 +1,6 @@
 import LyModel.Props.C11
 import LyModel.Props.C11Range
+import LyModel.Props.C11Compile
 #print axioms LyModel.Props.C11.iff_compile_correct_fails
 #print axioms LyModel.Props.C11.iff_compile_correct_partial
 #print axioms LyModel.Props.C11.iff_compile_correct_fixed
@@ -21,3 +22,9 @@ import LyModel.Props.C11Range
 #print axioms LyModel.Props.C11.range_validate_fixed
 #print axioms LyModel.Props.C11.range_parse_correct_fails
 #print axioms LyModel.Props.C11.range_parse_correct_partial
+#print axioms LyModel.Props.C11.typedef_chain_restriction_subset
+#print axioms LyModel.Props.C11.config_inheritance_node
+#print axioms LyModel.Props.C11.status_inheritance_node
+#print axioms LyModel.Props.C11.rmSwapIdx_length
+#print axioms LyModel.Props.C11.augment_order_independent_fails
+#print axioms LyModel.Props.C11.compile_eq_expand_fails
